@@ -70,24 +70,166 @@ fn parse_ops() -> Vec<Op> {
     ops
 }
 
-/// struct name -> list of (field, type-as-string) for every struct in dto/generated.rs
-fn parse_dto_structs() -> Vec<(String, Vec<(String, String)>)> {
+
+enum Dto {
+    Struct { name: String, fields: Vec<(String, String)> },
+    StrEnum { name: String, consts: Vec<String> },
+    Union { name: String, variants: Vec<(String, String)> },
+}
+
+fn ty_str(ty: &syn::Type) -> String {
+    quote::quote!(#ty).to_string().replace(' ', "")
+}
+
+fn parse_dto() -> Vec<Dto> {
     let path = format!("{REPO}/crates/s3s/src/dto/generated.rs");
     println!("cargo:rerun-if-changed={path}");
     let src = std::fs::read_to_string(&path).expect("read dto/generated.rs");
     let file = syn::parse_file(&src).expect("parse dto/generated.rs");
     let mut out = Vec::new();
-    for item in file.items {
-        if let syn::Item::Struct(s) = item {
-            let mut fields = Vec::new();
-            if let syn::Fields::Named(n) = &s.fields {
-                for f in &n.named {
-                    let ty = &f.ty;
-                    fields.push((f.ident.as_ref().unwrap().to_string(), quote::quote!(#ty).to_string().replace(' ', "")));
+    let mut consts: std::collections::HashMap<String, Vec<String>> = std::collections::HashMap::new();
+    for item in &file.items {
+        if let syn::Item::Impl(im) = item {
+            if im.trait_.is_some() {
+                continue;
+            }
+            let name = ty_str(&im.self_ty);
+            for ii in &im.items {
+                if let syn::ImplItem::Const(c) = ii {
+                    if let syn::Expr::Lit(syn::ExprLit { lit: syn::Lit::Str(s), .. }) = &c.expr {
+                        consts.entry(name.clone()).or_default().push(s.value());
+                    }
                 }
             }
-            out.push((s.ident.to_string(), fields));
         }
+    }
+    for item in file.items {
+        match item {
+            syn::Item::Struct(s) => match &s.fields {
+                syn::Fields::Named(n) => {
+                    let fields = n.named.iter().map(|f| (f.ident.as_ref().unwrap().to_string(), ty_str(&f.ty))).collect();
+                    out.push(Dto::Struct { name: s.ident.to_string(), fields });
+                }
+                syn::Fields::Unnamed(u) if u.unnamed.len() == 1 && ty_str(&u.unnamed[0].ty).starts_with("Cow<") => {
+                    let name = s.ident.to_string();
+                    let cs = consts.get(&name).cloned().unwrap_or_default();
+                    out.push(Dto::StrEnum { name, consts: cs });
+                }
+                syn::Fields::Unit => out.push(Dto::Struct { name: s.ident.to_string(), fields: Vec::new() }),
+                _ => {}
+            },
+            syn::Item::Enum(e) => {
+                let mut variants = Vec::new();
+                for v in &e.variants {
+                    if let syn::Fields::Unnamed(u) = &v.fields {
+                        if u.unnamed.len() == 1 {
+                            variants.push((v.ident.to_string(), ty_str(&u.unnamed[0].ty)));
+                        }
+                    }
+                }
+                out.push(Dto::Union { name: e.ident.to_string(), variants });
+            }
+            _ => {}
+        }
+    }
+    out
+}
+
+fn norm(s: &str) -> String {
+    s.chars().filter(|c| c.is_ascii_alphanumeric()).map(|c| c.to_ascii_lowercase()).collect()
+}
+
+#[derive(Clone, Debug)]
+struct Member {
+    name: String,
+    pos: &'static str, // Header Query Label Payload Meta Xml
+    wire: String,
+    required: bool,
+    target: String,
+}
+
+struct OpModel {
+    name: String,
+    method: String,
+    uri: String,
+    code: u64,
+    input: Vec<Member>,
+    output: Vec<Member>,
+}
+
+fn members_of(shapes: &serde_json::Map<String, serde_json::Value>, shape_id: &str) -> Vec<Member> {
+    let mut out = Vec::new();
+    let Some(sh) = shapes.get(shape_id) else { return out };
+    let Some(ms) = sh.get("members").and_then(|m| m.as_object()) else { return out };
+    for (name, m) in ms {
+        let tr = m.get("traits").and_then(|t| t.as_object()).cloned().unwrap_or_default();
+        let (pos, wire) = if let Some(h) = tr.get("smithy.api#httpHeader") {
+            ("Header", h.as_str().unwrap_or("").to_owned())
+        } else if let Some(q) = tr.get("smithy.api#httpQuery") {
+            ("Query", q.as_str().unwrap_or("").to_owned())
+        } else if tr.contains_key("smithy.api#httpLabel") {
+            ("Label", name.clone())
+        } else if tr.contains_key("smithy.api#httpPayload") {
+            ("Payload", tr.get("smithy.api#xmlName").and_then(|x| x.as_str()).unwrap_or(name).to_owned())
+        } else if let Some(p) = tr.get("smithy.api#httpPrefixHeaders") {
+            ("Meta", p.as_str().unwrap_or("").to_owned())
+        } else if tr.contains_key("smithy.api#httpResponseCode") {
+            ("Status", String::new())
+        } else {
+            ("Xml", tr.get("smithy.api#xmlName").and_then(|x| x.as_str()).unwrap_or(name).to_owned())
+        };
+        out.push(Member {
+            name: name.clone(),
+            pos,
+            wire,
+            required: tr.contains_key("smithy.api#required"),
+            target: m.get("target").and_then(|t| t.as_str()).unwrap_or("").rsplit('#').next().unwrap_or("").to_owned(),
+        });
+    }
+    out
+}
+
+fn parse_required() -> std::collections::HashSet<(String, String)> {
+    let path = format!("{REPO}/data/s3.json");
+    let v: serde_json::Value = serde_json::from_str(&std::fs::read_to_string(&path).expect("read s3.json")).expect("parse s3.json");
+    let shapes = v.get("shapes").and_then(|s| s.as_object()).expect("shapes");
+    let mut out = std::collections::HashSet::new();
+    for (id, sh) in shapes {
+        let name = id.rsplit('#').next().unwrap_or("").to_owned();
+        if let Some(ms) = sh.get("members").and_then(|m| m.as_object()) {
+            for (mn, m) in ms {
+                if m.pointer("/traits/smithy.api#required").is_some() {
+                    out.insert((name.clone(), norm(mn)));
+                }
+            }
+        }
+    }
+    out
+}
+
+fn parse_model(ops: &[Op]) -> Vec<OpModel> {
+    let path = format!("{REPO}/data/s3.json");
+    println!("cargo:rerun-if-changed={path}");
+    let v: serde_json::Value = serde_json::from_str(&std::fs::read_to_string(&path).expect("read s3.json")).expect("parse s3.json");
+    let shapes = v.get("shapes").and_then(|s| s.as_object()).expect("shapes");
+    let mut out = Vec::new();
+    for op in ops {
+        let id = format!("com.amazonaws.s3#{}", op.name);
+        let Some(sh) = shapes.get(&id) else {
+            // operations of the trait that are not in the S3 model (none expected)
+            panic!("operation {} of the S3 trait is not in data/s3.json", op.name);
+        };
+        let http = sh.pointer("/traits/smithy.api#http").expect("http trait");
+        let input_id = sh.pointer("/input/target").and_then(|x| x.as_str()).unwrap_or("");
+        let output_id = sh.pointer("/output/target").and_then(|x| x.as_str()).unwrap_or("");
+        out.push(OpModel {
+            name: op.name.clone(),
+            method: http.get("method").and_then(|x| x.as_str()).unwrap().to_owned(),
+            uri: http.get("uri").and_then(|x| x.as_str()).unwrap().to_owned(),
+            code: http.get("code").and_then(|x| x.as_u64()).unwrap_or(200),
+            input: members_of(shapes, input_id),
+            output: members_of(shapes, output_id),
+        });
     }
     out
 }
@@ -96,9 +238,12 @@ fn main() {
     println!("cargo:rerun-if-changed=build.rs");
     let out_dir = std::env::var("OUT_DIR").unwrap();
     let ops = parse_ops();
-    let structs = parse_dto_structs();
-    let has_body = |ty: &str| structs.iter().any(|(n, fs)| n == ty && fs.iter().any(|(f, t)| f == "body" && t == "Option<StreamingBlob>"));
+    let dtos = parse_dto();
+    let model = parse_model(&ops);
+    let required = parse_required();
+    let has_body = |ty: &str| dtos.iter().any(|d| matches!(d, Dto::Struct { name, fields } if name == ty && fields.iter().any(|(f, t)| f == "body" && t == "Option<StreamingBlob>")));
 
+    // ---------------------------------------------------------------- ops_gen.rs (G2)
     let mut g = String::new();
     writeln!(g, "// generated by build.rs from {REPO}/crates/s3s/src/s3_trait.rs — {} operations", ops.len()).unwrap();
     writeln!(g, "pub const OP_NAMES: &[&str] = &[").unwrap();
@@ -106,8 +251,6 @@ fn main() {
         writeln!(g, "    \"{}\",", op.name).unwrap();
     }
     writeln!(g, "];").unwrap();
-
-    // body extraction
     for op in &ops {
         if has_body(&op.input) {
             writeln!(g, "impl TakeBody for {} {{ fn take_body(&mut self) -> Option<StreamingBlob> {{ self.body.take() }} }}", op.input).unwrap();
@@ -115,34 +258,183 @@ fn main() {
             writeln!(g, "impl TakeBody for {} {{}}", op.input).unwrap();
         }
     }
-
     writeln!(g, "#[async_trait::async_trait]\nimpl S3 for RecBackend {{").unwrap();
     for op in &ops {
-        writeln!(
-            g,
-            "    async fn {m}(&self, req: S3Request<{i}>) -> S3Result<S3Response<{o}>> {{ self.handle::<{i}, {o}>(\"{n}\", req).await }}",
-            m = op.method,
-            i = op.input,
-            o = op.output,
-            n = op.name
-        )
-        .unwrap();
+        writeln!(g, "    async fn {m}(&self, req: S3Request<{i}>) -> S3Result<S3Response<{o}>> {{ self.handle::<{i}, {o}>(\"{n}\", req).await }}", m = op.method, i = op.input, o = op.output, n = op.name).unwrap();
     }
     writeln!(g, "}}").unwrap();
-
     writeln!(g, "#[async_trait::async_trait]\nimpl S3Access for RecAccess {{").unwrap();
     writeln!(g, "    async fn check(&self, cx: &mut S3AccessContext<'_>) -> S3Result<()> {{ self.on_check(cx) }}").unwrap();
     for op in &ops {
-        writeln!(
-            g,
-            "    async fn {m}(&self, req: &mut S3Request<{i}>) -> S3Result<()> {{ self.on_typed(\"{n}\", req.credentials.as_ref()) }}",
-            m = op.method,
-            i = op.input,
-            n = op.name
-        )
-        .unwrap();
+        writeln!(g, "    async fn {m}(&self, req: &mut S3Request<{i}>) -> S3Result<()> {{ self.on_typed(\"{n}\", req.credentials.as_ref()) }}", m = op.method, i = op.input, n = op.name).unwrap();
     }
     writeln!(g, "}}").unwrap();
-
     std::fs::write(Path::new(&out_dir).join("ops_gen.rs"), g).unwrap();
+
+    // ---------------------------------------------------------------- dto_gen.rs (G1)
+    // wire position of top-level members of operation inputs/outputs, from the Smithy model only
+    let mut io_pos: std::collections::HashMap<(String, String), (&'static str, bool)> = std::collections::HashMap::new(); // (struct, normalised field) -> (pos, required)
+    for om in &model {
+        let op = ops.iter().find(|o| o.name == om.name).unwrap();
+        for m in &om.input {
+            io_pos.insert((op.input.clone(), norm(&m.name)), (m.pos, m.required));
+        }
+        for m in &om.output {
+            io_pos.insert((op.output.clone(), norm(&m.name)), (m.pos, m.required));
+        }
+    }
+    let io_structs: std::collections::HashSet<String> = ops.iter().flat_map(|o| [o.input.clone(), o.output.clone()]).collect();
+
+    let mut d = String::new();
+    writeln!(d, "// generated by build.rs from dto/generated.rs and data/s3.json").unwrap();
+    let mut extensions: Vec<String> = Vec::new();
+    for dto in &dtos {
+        match dto {
+            Dto::Struct { name, fields } => {
+                let is_io = io_structs.contains(name);
+                writeln!(d, "impl Gen for {name} {{").unwrap();
+                writeln!(d, "    #[allow(unused_variables)]\n    fn base(pos: Pos) -> Self {{\n        {name} {{").unwrap();
+                for (f, t) in fields {
+                    let p = if is_io { io_pos.get(&(name.clone(), norm(f))).map(|x| x.0) } else { None };
+                    let pos_expr = match p {
+                        Some("Status") | None => "pos".to_owned(),
+                        Some(p) => format!("Pos::{p}"),
+                    };
+                    if f == "bucket" && t == "BucketName" {
+                        writeln!(d, "            {f}: \"bkt\".to_owned(),").unwrap();
+                    } else if is_io && p.is_none() {
+                        // extension member (no model counterpart): simplest value, never varied
+                        if !t.starts_with("Option<") {
+                            writeln!(d, "            {f}: <{t} as Gen>::base(Pos::Xml),").unwrap();
+                        } else {
+                            writeln!(d, "            {f}: None,").unwrap();
+                        }
+                    } else if !is_io && t.starts_with("Option<") && required.contains(&(name.clone(), norm(f))) {
+                        // required by the S3 model although optional in the DTO (MinIO compatibility patches)
+                        let inner = &t["Option<".len()..t.len() - 1];
+                        writeln!(d, "            {f}: Some(<{inner} as Gen>::base(pos)),").unwrap();
+                    } else {
+                        let pos_expr = if is_io { pos_expr } else { "pos".to_owned() };
+                        writeln!(d, "            {f}: <{t} as Gen>::base({pos_expr}),").unwrap();
+                    }
+                }
+                writeln!(d, "        }}\n    }}").unwrap();
+                writeln!(d, "    #[allow(unused_variables, unused_mut)]\n    fn alts(pos: Pos, depth: u32) -> Alts<Self> {{\n        let mut v: Alts<Self> = Vec::new();\n        if depth == 0 {{ return v; }}").unwrap();
+                for (f, t) in fields {
+                    let p = if is_io { io_pos.get(&(name.clone(), norm(f))).map(|x| x.0) } else { None };
+                    if is_io && p.is_none() {
+                        extensions.push(format!("{name}.{f}"));
+                        continue;
+                    }
+                    if f == "bucket" && t == "BucketName" {
+                        continue; // bucket names are C12's alphabet
+                    }
+                    let pos_expr = match (is_io, p) {
+                        (true, Some("Status")) | (false, _) | (true, None) => "pos".to_owned(),
+                        (true, Some(p)) => format!("Pos::{p}"),
+                    };
+                    writeln!(d, "        for (l, m) in <{t} as Gen>::alts({pos_expr}, depth - 1) {{ v.push((format!(\".{f}{{l}}\"), Arc::new(move |s: &mut Self| m(&mut s.{f})))); }}").unwrap();
+                }
+                writeln!(d, "        v\n    }}\n}}").unwrap();
+                if is_io {
+                    // field-wise differ (streams are compared by bytes elsewhere)
+                    writeln!(d, "impl FieldDiff for {name} {{\n    #[allow(unused_mut, unused_variables)]\n    fn field_diff(&self, other: &Self) -> Vec<&'static str> {{\n        let mut v = Vec::new();").unwrap();
+                    for (f, t) in fields {
+                        if t.contains("StreamingBlob") || t.contains("SelectObjectContentEventStream") {
+                            continue;
+                        }
+                        writeln!(d, "        if self.{f} != other.{f} {{ v.push(\"{f}\"); }}").unwrap();
+                    }
+                    writeln!(d, "        v\n    }}\n}}").unwrap();
+                }
+            }
+            Dto::StrEnum { name, consts } => {
+                let first = consts.first().cloned().unwrap_or_else(|| "X".to_owned());
+                writeln!(d, "impl Gen for {name} {{").unwrap();
+                writeln!(d, "    fn base(_: Pos) -> Self {{ {name}::from({first:?}.to_owned()) }}").unwrap();
+                writeln!(d, "    fn alts(_: Pos, _: u32) -> Alts<Self> {{\n        let mut v: Alts<Self> = Vec::new();").unwrap();
+                if consts.len() > 1 {
+                    let last = consts.last().unwrap();
+                    writeln!(d, "        v.push((\"={last}\".to_owned(), Arc::new(|x: &mut Self| *x = {name}::from({last:?}.to_owned()))));").unwrap();
+                }
+                writeln!(d, "        v.push((\"=UNKNOWN_VARIANT_X\".to_owned(), Arc::new(|x: &mut Self| *x = {name}::from(\"UNKNOWN_VARIANT_X\".to_owned()))));").unwrap();
+                writeln!(d, "        v\n    }}\n}}").unwrap();
+            }
+            Dto::Union { name, variants } => {
+                if variants.is_empty() {
+                    continue;
+                }
+                let (v0, t0) = &variants[0];
+                writeln!(d, "impl Gen for {name} {{").unwrap();
+                writeln!(d, "    fn base(pos: Pos) -> Self {{ {name}::{v0}(<{t0} as Gen>::base(pos)) }}").unwrap();
+                writeln!(d, "    fn alts(pos: Pos, depth: u32) -> Alts<Self> {{\n        let mut v: Alts<Self> = Vec::new();").unwrap();
+                for (vn, vt) in variants {
+                    writeln!(d, "        v.push((\"={vn}(base)\".to_owned(), Arc::new(move |x: &mut Self| *x = {name}::{vn}(<{vt} as Gen>::base(pos)))));").unwrap();
+                    writeln!(d, "        if depth > 0 {{ for (l, m) in <{vt} as Gen>::alts(pos, depth - 1) {{ v.push((format!(\"={vn}{{l}}\"), Arc::new(move |x: &mut Self| {{ let mut t = <{vt} as Gen>::base(pos); m(&mut t); *x = {name}::{vn}(t); }}))); }} }}").unwrap();
+                }
+                writeln!(d, "        v\n    }}\n}}").unwrap();
+            }
+        }
+    }
+    writeln!(d, "pub const EXTENSION_MEMBERS: &[&str] = &[").unwrap();
+    for e in &extensions {
+        writeln!(d, "    \"{e}\",").unwrap();
+    }
+    writeln!(d, "];").unwrap();
+    std::fs::write(Path::new(&out_dir).join("dto_gen.rs"), d).unwrap();
+
+    // ---------------------------------------------------------------- drivers_gen.rs
+    let mut r = String::new();
+    for op in &ops {
+        writeln!(r, "fn call_{m}<'a>(s3: &'a dyn S3, req: S3Request<{i}>) -> BoxFuture<'a, S3Result<S3Response<{o}>>> {{ Box::pin(s3.{m}(req)) }}", i = op.input, o = op.output, m = op.method).unwrap();
+    }
+    for op in &ops {
+        if has_body(&op.output) {
+            writeln!(r, "impl TakeOutBody for {} {{ fn take_out_body(&mut self) -> Option<StreamingBlob> {{ self.body.take() }} }}", op.output).unwrap();
+        } else {
+            writeln!(r, "impl TakeOutBody for {} {{}}", op.output).unwrap();
+        }
+    }
+    writeln!(r, "pub fn drivers() -> Vec<Box<dyn OpDriver>> {{\n    vec![").unwrap();
+    for op in &ops {
+        writeln!(r, "        Box::new(Driver::<{i}, {o}>::new(\"{n}\", call_{m})),", i = op.input, o = op.output, n = op.name, m = op.method).unwrap();
+    }
+    writeln!(r, "    ]\n}}").unwrap();
+    std::fs::write(Path::new(&out_dir).join("drivers_gen.rs"), r).unwrap();
+
+    // ---------------------------------------------------------------- model_gen.rs (G3)
+    let mut m = String::new();
+    writeln!(m, "pub static OP_MODELS: &[OpModel] = &[").unwrap();
+    for om in &model {
+        let op = ops.iter().find(|o| o.name == om.name).unwrap();
+        let fields_of = |sname: &str| -> Vec<(String, String)> {
+            dtos.iter().find_map(|d| if let Dto::Struct { name, fields } = d { (name == sname).then(|| fields.clone()) } else { None }).unwrap_or_default()
+        };
+        let emit_members = |ms: &[Member], sname: &str| -> String {
+            let fs = fields_of(sname);
+            let mut s = String::from("&[");
+            for mm in ms {
+                let field = fs.iter().find(|(f, _)| norm(f) == norm(&mm.name)).map(|(f, _)| f.clone());
+                // the one hand-reshaped input: SelectObjectContentInput.request holds the payload members
+                let field = match field {
+                    Some(f) => f,
+                    None if sname == "SelectObjectContentInput" => format!("request.{}", {
+                        let mut o = String::new();
+                        for (i, c) in mm.name.chars().enumerate() {
+                            if c.is_ascii_uppercase() && i > 0 { o.push('_'); }
+                            o.push(c.to_ascii_lowercase());
+                        }
+                        o
+                    }),
+                    None => panic!("model member {}.{} has no DTO field in {sname}", om.name, mm.name),
+                };
+                s.push_str(&format!("MemberModel {{ name: {:?}, field: {:?}, pos: Pos::{}, wire: {:?}, required: {}, target: {:?} }}, ", mm.name, field, if mm.pos == "Status" { "Xml" } else { mm.pos }, mm.wire, mm.required, mm.target));
+            }
+            s.push(']');
+            s
+        };
+        writeln!(m, "    OpModel {{ name: {:?}, method: {:?}, uri: {:?}, code: {}, input: {}, output: {} }},", om.name, om.method, om.uri, om.code, emit_members(&om.input, &op.input), emit_members(&om.output, &op.output)).unwrap();
+    }
+    writeln!(m, "];").unwrap();
+    std::fs::write(Path::new(&out_dir).join("model_gen.rs"), m).unwrap();
 }
